@@ -4,11 +4,12 @@ CONSTANTS
  T = 2
  Byz = {3}
  ExVerify = TRUE
- Off = {}
+ Off = {"OneRoot"}
  MDuties = {"c"}
  SigDuties = {}
  MRoots = {"A", "B"}
- Budget = 7
+ Budget = 5
+ ByzBudget = 2
  Prefix = "decided"
  Acts = {"back"}
 INVARIANT Safety
